@@ -561,14 +561,21 @@ func (root *Root) resolveField(
 			return
 		}
 	}
-	const queryType = "Query"
+	// The meta fields are served on the schema's query root whatever that
+	// type is named.
+	var queryType Type
+	if root.schema != nil {
+		if fd := root.schema.fields.get(string(OpQuery)); fd != nil {
+			queryType = fd.Type
+		}
+	}
 	var ea2 []error
 	switch field.Name {
 	case "__typename":
 		result[field.key()] = t.Name()
 		return nil
 	case "__type":
-		if t.Name() == queryType {
+		if queryType != nil && t == queryType {
 			var fv interface{} // field value
 			var av *ArgValue
 
@@ -600,7 +607,7 @@ func (root *Root) resolveField(
 		ea = append(ea, resWarnp(field, "__type meta-field is only on the query object"))
 		return
 	case "__schema":
-		if t.Name() == queryType {
+		if queryType != nil && t == queryType {
 			var fv interface{} // field value
 
 			fv, ea2 = root.resolve(root, vars, field, root.uuSchemaType, depth)
